@@ -18,6 +18,8 @@ mod val;
 mod xmlchannel;
 mod xmlfile;
 mod xmlgen;
+mod xmlbin;
+mod xmlmig;
 mod xmloracle;
 mod xmlspecgen;
 
